@@ -375,3 +375,6 @@ def run(ctx):
     s15_3(ctx, P)
     s15_6(ctx, P)
     s15_7(ctx, P)
+    # the "issuer fingerprint version = signature version" rule reads the version off the Fingerprint value: its constructor keeps it
+    from rules import c13
+    c13.fingerprint_variant_per_version(ctx, P)
